@@ -210,11 +210,28 @@ pub fn install_crash_handler() {
 /// stack its users have).  The case being evaluated is made known to the crash handler on that thread.
 pub fn on_small_stack<T: Send>(f: impl FnOnce() -> T + Send) -> T {
   let case = CURRENT_CASE.with(|c| c.borrow().clone());
+  let slot = MY_SLOT.with(|s| *s);
   let r = std::thread::scope(|s| {
     std::thread::Builder::new()
       .stack_size(2 << 20)
       .spawn_scoped(s, move || {
         CURRENT_CASE.with(|c| *c.borrow_mut() = case);
+        // the watchdog looks at every thread that works on the case
+        let me = gettid();
+        if let Some(Some(e)) = SLOTS.lock().unwrap().get_mut(slot) {
+          e.2.push(me);
+        }
+        struct Gone(usize, i32);
+        impl Drop for Gone {
+          fn drop(&mut self) {
+            if let Ok(mut s) = SLOTS.lock() {
+              if let Some(Some(e)) = s.get_mut(self.0) {
+                e.2.retain(|t| *t != self.1);
+              }
+            }
+          }
+        }
+        let _gone = Gone(slot, me);
         f()
       })
       .expect("spawn a small-stack thread")
@@ -275,7 +292,33 @@ static SLOT_COUNT: AtomicU64 = AtomicU64::new(0);
 /// time is counted in half-second ticks of the watchdog thread itself, not by the wall clock: if the whole
 /// process (or machine) is stopped for a while, no tick passes and nothing is declared stuck
 static TICKS: AtomicU64 = AtomicU64::new(0);
-static SLOTS: Mutex<Vec<Option<(u64, String)>>> = Mutex::new(Vec::new());
+/// (tick at which the case started, case JSON, ids of the threads working on it: the evaluating thread and the
+/// small-stack helper threads it waits for)
+static SLOTS: Mutex<Vec<Option<(u64, String, Vec<i32>)>>> = Mutex::new(Vec::new());
+/// A thread that is asleep in the kernel and has consumed no CPU time for this many watchdog ticks (20 s of the
+/// watchdog's own time) while evaluating a single-threaded case is blocked for good: nothing else works on the case
+/// that could wake it.  That is not a resource limit but a call that never returns (a lock taken twice, a wait
+/// nobody answers).  Properties whose statement covers it (C17: "panic or hang") report it as a violation;
+/// for the others it ends the run as inconclusive without waiting for the full case limit.
+const BLOCKED_TICKS: u32 = 40;
+
+fn gettid() -> i32 {
+  unsafe { libc::syscall(libc::SYS_gettid) as i32 }
+}
+
+/// (state letter, utime + stime) of a thread of this process
+fn thread_stat(tid: i32) -> Option<(char, u64)> {
+  let st = std::fs::read_to_string(format!("/proc/self/task/{tid}/stat")).ok()?;
+  let rest = &st[st.rfind(')')? + 2..];
+  let f: Vec<&str> = rest.split(' ').collect();
+  // after the command name: state is field 0, utime field 11, stime field 12
+  Some((f.first()?.chars().next()?, f.get(11)?.parse::<u64>().ok()? + f.get(12)?.parse::<u64>().ok()?))
+}
+
+/// properties for which a call that never returns is itself a violation of the statement
+fn blocked_is_violation(prop: &str) -> bool {
+  prop == "C17"
+}
 thread_local! {
   static MY_SLOT: usize = {
     let k = SLOT_COUNT.fetch_add(1, Ordering::SeqCst) as usize;
@@ -286,13 +329,61 @@ thread_local! {
 }
 
 pub fn start_watchdog() {
-  std::thread::spawn(|| loop {
+  // per slot: (start tick of the case it was counted for, CPU time seen last, consecutive ticks asleep without CPU time)
+  let mut still: Vec<(u64, u64, u32)> = vec![];
+  std::thread::spawn(move || loop {
     std::thread::sleep(std::time::Duration::from_millis(500));
     let now = TICKS.fetch_add(1, Ordering::SeqCst) + 1;
     let stuck: Option<String> = {
       let s = SLOTS.lock().unwrap();
-      s.iter().flatten().find(|(t, _)| now.saturating_sub(*t) > 2 * CASE_LIMIT_S).map(|(_, j)| j.clone())
+      s.iter().flatten().find(|(t, _, _)| now.saturating_sub(*t) > 2 * CASE_LIMIT_S).map(|(_, j, _)| j.clone())
     };
+    // blocked for good?  every thread of a case asleep, none of them consuming CPU time, tick after tick
+    // (not where the evaluating thread legitimately sleeps while threads or processes of its own work: C18, C19, C20)
+    let single_threaded_cases = !matches!(CURRENT_PROP.lock().map(|p| p.clone()).unwrap_or_default().as_str(), "C18" | "C19" | "C20");
+    let blocked: Option<String> = {
+      let s = SLOTS.lock().unwrap();
+      let mut found = None;
+      while still.len() < s.len() {
+        still.push((0u64, 0u64, 0u32));
+      }
+      for (k, e) in s.iter().enumerate() {
+        let Some((t0, json, tids)) = e else {
+          still[k] = (0, 0, 0);
+          continue;
+        };
+        if !single_threaded_cases {
+          continue;
+        }
+        let stats: Vec<Option<(char, u64)>> = tids.iter().map(|t| thread_stat(*t)).collect();
+        let asleep = !stats.is_empty() && stats.iter().all(|x| matches!(x, Some(('S', _))));
+        let cpu: u64 = stats.iter().flatten().map(|x| x.1).sum::<u64>() + tids.len() as u64 * 1_000_000_007;
+        if asleep && still[k].0 == *t0 && still[k].1 == cpu {
+          still[k].2 += 1;
+        } else {
+          still[k] = (*t0, cpu, 0);
+        }
+        if still[k].2 >= BLOCKED_TICKS {
+          found = Some(json.clone());
+        }
+      }
+      found
+    };
+    if let Some(json) = blocked {
+      let prop = CURRENT_PROP.lock().map(|p| p.clone()).unwrap_or_default();
+      let dir = VERIF_DIR.lock().map(|p| p.clone()).unwrap_or_default();
+      let why = "a call does not return: the evaluating thread has been asleep in the kernel, consuming no CPU time, for 20 s while nothing else works on the case (blocked for good, e.g. on a lock it already holds)";
+      let path = write_replay_raw(&dir, &prop, &json, why);
+      if blocked_is_violation(&prop) {
+        println!("abort: {why}");
+        println!("VIOLATION property={prop} replay={path}");
+      } else {
+        println!("INCONCLUSIVE property={prop}: {why} (saved as {path})");
+      }
+      use std::io::Write;
+      let _ = std::io::stdout().flush();
+      std::process::exit(if blocked_is_violation(&prop) { 1 } else { 2 });
+    }
     if let Some(json) = stuck {
       let prop = CURRENT_PROP.lock().map(|p| p.clone()).unwrap_or_default();
       let dir = VERIF_DIR.lock().map(|p| p.clone()).unwrap_or_default();
@@ -309,7 +400,7 @@ fn eval_case<P: Prop>(p: &P, case: &P::Case) -> (String, CheckResult) {
   let json = serde_json::to_string(case).expect("case serialises");
   CURRENT_CASE.with(|c| *c.borrow_mut() = json.clone());
   let slot = MY_SLOT.with(|s| *s);
-  SLOTS.lock().unwrap()[slot] = Some((TICKS.load(Ordering::SeqCst), json.clone()));
+  SLOTS.lock().unwrap()[slot] = Some((TICKS.load(Ordering::SeqCst), json.clone(), vec![gettid()]));
   struct Clear(usize);
   impl Drop for Clear {
     fn drop(&mut self) {
